@@ -93,12 +93,17 @@ static void op_frag(const char* hex, size_t first, const char* cuts) {
   size_t size = all.n, p = 0, avail = first > size ? size : first;
   const char* c = cuts[0] == '-' ? "" : cuts;
   struct rec r = {0};
+  int stalled = 0; size_t stall_at = 0, stall_read = 0;
   for (size_t guard = 0; guard < 2 * size + 2; guard++) {
     struct xbuf win = exact_copy(all.p + p, avail - p);
     r.base = win.p; r.bias = p;
     struct cbor_decoder_result res = cbor_stream_decode(win.p, avail - p, &rec_callbacks, &r);
     free_exact(win);
-    if (res.status == CBOR_DECODER_FINISHED) { p += res.read; continue; }
+    if (res.status == CBOR_DECODER_FINISHED) {
+      /* FINISHED must consume something that was buffered: a client told neither to advance nor to wait can only spin */
+      if (res.read == 0 || res.read > avail - p) { stalled = 1; stall_at = p; stall_read = res.read; break; }
+      p += res.read; continue;
+    }
     if (res.status == CBOR_DECODER_NEDATA) {
       size_t target = p + res.required;
       while (avail < target && *c) { avail += strtoull(c, (char**)&c, 10); if (*c == ',') c++; if (avail > size) avail = size; }
@@ -108,7 +113,9 @@ static void op_frag(const char* hex, size_t first, const char* cuts) {
     break;                            /* ERROR */
   }
   if (r.out) r.out[r.len] = 0;
-  printf("%d %s\n", r.count, r.count ? r.out : "none");
+  printf("%d %s", r.count, r.count ? r.out : "none");
+  if (stalled) printf(" CLIENT-STUCK at offset %zu: FINISHED with read=%zu and %zu byte(s) buffered", stall_at, stall_read, avail - stall_at);
+  printf("\n");
   free(r.out); free_exact(all);
 }
 
